@@ -493,6 +493,14 @@ func genSumCase(r *Rng, prop string) []Op {
 		ops = g.fdisks(ops, true, "dst/"+strings.ReplaceAll(it, ".", "/")+"/sum.wsp")
 	}
 	ops = append(ops, Op{fmt.Sprintf("cmd sumdiff %s dest=sum.wsp %s", common, w), true})
+	if len(itemSpecs) >= 2 && r.Bool() {
+		// one item disturbed after the copy, the others still clean: the run reports the difference
+		first := itemSpecs[0][strings.IndexByte(itemSpecs[0], '>')+1:]
+		ops = append(ops, Op{"use " + first, false}, Op{"open", false},
+			Op{fmt.Sprintf("upd 0 %d %s %d", g.now-r.Intn(g.lay.Steps[0]*2+1), genVal(r, false), g.now), false},
+			Op{"sync", false}, Op{"drop", false})
+		ops = append(ops, Op{fmt.Sprintf("cmd sumdiff %s dest=sum.wsp %s", common, w), true})
+	}
 	return ops
 }
 
@@ -722,7 +730,7 @@ func genLoudCase(r *Rng) []Op {
 		// finishes: a report of any size, even none, must not be lost silently
 		to = " textout=full"
 	}
-	c := r.Intn(7)
+	c := r.Intn(8)
 	if to == " textout=full" && c != 0 && c != 1 && c != 4 {
 		// with the commands that write, or report a difference, where the failure surfaces
 		// depends on the size of the report: kept to the reading commands here
@@ -748,6 +756,13 @@ func genLoudCase(r *Rng) []Op {
 	case 5:
 		ops = append(ops, Op{fmt.Sprintf("cmd sumcopy items=src/it/f0.wsp>dst/it/sum.wsp itempat=it srcpat=*.wsp dest=sum.wsp %s %s%s", g.opts(), wAny, to), true})
 		ops = g.fdisks(ops, true, "dst/it/sum.wsp")
+	case 7:
+		// several items in one run: an earlier item reports a difference (its destination is
+		// missing), a later one compares clean — the run as a whole still reports the difference
+		ops = g.writeFile(ops, "src/iu/f0.wsp", g.lay, 1+r.Intn(2))
+		ops = append(ops, Op{fmt.Sprintf("cmd sumcopy items=src/iu/f0.wsp>dst/iu/sum.wsp itempat=iu srcpat=*.wsp dest=sum.wsp %s %s", g.opts(), wAll), true})
+		ops = append(ops, Op{fmt.Sprintf("cmd sumdiff items=src/it/f0.wsp>dst/it/sum.wsp;src/iu/f0.wsp>dst/iu/sum.wsp itempat=i? srcpat=*.wsp dest=sum.wsp %s%s", wAll, to), true})
+		ops = append(ops, Op{fmt.Sprintf("cmd sumdiff items=src/iu/f0.wsp>dst/iu/sum.wsp itempat=iu srcpat=*.wsp dest=sum.wsp %s%s", wAll, to), true})
 	default:
 		// the destination of the sum is never there in this stream
 		ops = append(ops, Op{fmt.Sprintf("cmd sumdiff items=src/it/f0.wsp>dst/it/sum.wsp itempat=it srcpat=*.wsp dest=sum.wsp %s%s", wAll, to), true})
